@@ -498,7 +498,7 @@ pub fn c14_history(h: &History, rep: &mut Report) {
             out.extend(tc.flush());
             strip_trailing_empty(out)
         };
-        let pieces: Vec<&str> = hh.calls.iter().map(|c| if let Call::FeedStr(s) = c { s.as_str() } else { "" }).collect();
+        let pieces: Vec<&str> = hh.calls.iter().map(|c| if let Call::FeedStr(s) | Call::Feed(s) = c { s.as_str() } else { "" }).collect();
         let a = collect(hh.limit, pieces);
         let b = collect(None, vec![&text]);
         if a != b {
@@ -518,10 +518,13 @@ pub fn work_c14(ctx: &Ctx, rep: &mut Report) {
     for u in ctx.units(n) {
         let mut r = Rng::derive(ctx.seed, &[0xC14, 1, u as u64]);
         let mut h = gen::history(&mut r, &prof);
-        // feed() does not hand out lines; the property is about the Changes of feed_str calls
-        for c in h.calls.iter_mut() {
-            if let Call::Feed(s) = c {
-                *c = Call::FeedStr(s.clone());
+        // feed() hands out nothing itself: what scrolls off during feed() calls must come out of the
+        // next feed_str (a third of the sessions keep their feed() calls, the rest use feed_str only)
+        if u % 3 != 0 {
+            for c in h.calls.iter_mut() {
+                if let Call::Feed(s) = c {
+                    *c = Call::FeedStr(s.clone());
+                }
             }
         }
         // a session that ends on the primary screen
